@@ -208,6 +208,9 @@ func propC15(e *Env) {
 						for beh := 0; beh < 3; beh++ {
 							got, rd, err := c15Sync(stream, cuts, bs, beh)
 							total++
+							if total&0xffff == 0 {
+								progress.Add(1) // a long enumeration is progress as far as the watchdog is concerned
+							}
 							if err != nil {
 								e.Fail("read-error", "stream %q cuts %b buf %d beh %d: %v", stream, cuts, bs, beh, err)
 								break
